@@ -7,7 +7,8 @@ namespace {
 
 struct ResetRun : NodeEnv {
     bool split = false; bool para = false; uint8_t defId = 1; std::vector<int> appTimers; std::vector<ObjSpec> base;
-    std::vector<std::pair<uint8_t, uint16_t>> emcyTbl = {{1, 0x2100}, {2, 0x3100}, {1, 0x2200}};
+    std::vector<std::pair<uint8_t, uint16_t>> emcyTbl = mkTbl();
+    static std::vector<std::pair<uint8_t, uint16_t>> mkTbl() { std::vector<std::pair<uint8_t, uint16_t>> t = {{1, 0x2100}, {2, 0x3100}, {1, 0x2200}}; for (int i = 3; i < CO_EMCY_N && i < 27; i++) t.push_back({(uint8_t)(1 + i % 5), (uint16_t)(0x4000 + 0x100 * i)}); return t; }   // as many emergencies as the build allows (identifiers up to 26: several storage bytes)
     uint8_t *cbuf[2][CO_CSDO_N];
     bool armCb = false, cbFired = false; int cbType = 0; size_t cbMk = 0, cbMk2 = 0;   // reset requested by the application from inside CONmtHbConsEvent
     ResetRun(const Plan &p, Cov &c, bool vb) : NodeEnv(p, c, vb) { memset(cbuf, 0, sizeof cbuf); }
@@ -98,7 +99,7 @@ struct ResetRun : NodeEnv {
         else if (k == "isr") { int n = (int)(o.arg(0) % 400) + 1; for (int i = 0; i < n; i++) w.isr(sl); cov.hit("F13-ticks-served-not-processed"); }   // timer processing lags: elapsed events wait for COTmrProcess
         else if (k == "lag") { int n = (int)(o.arg(0) % 6) + 1; for (int i = 0; i < n; i++) w.isr(sl); w.process(sl); cov.hit("F13-deferred-processing"); }   // n ticks served, processed late in one go
         else if (k == "frame") { Frame f((uint32_t)o.arg(0), (uint8_t)o.arg(1, 8), o.b); if (f.id == 0x600) f.id = 0x600u + n->NodeId; /* SDO requests follow the node id (LSS may have changed it) */ if (f.id == 0x640 && para && CO_SSDO_N > 1) f.id = (w.raw(sl, 0x1201, 1) + n->NodeId) & 0x7FF; /* second server: the identifier 1201h:1 announces */ w.rx(sl, f); w.canproc(sl); cov.frames_in++; }
-        else if (k == "emcy") { if (o.arg(0)) COEmcySet(&n->Emcy, (uint8_t)(o.arg(1) % 3), nullptr); else COEmcyClr(&n->Emcy, (uint8_t)(o.arg(1) % 3)); }
+        else if (k == "emcy") { uint8_t e = (uint8_t)((uint64_t)o.arg(1) % emcyTbl.size()); if (o.arg(0)) COEmcySet(&n->Emcy, e, nullptr); else COEmcyClr(&n->Emcy, e); }
         else if (k == "trig") { if (o.arg(0) == 0) COTPdoTrigPdo(n->TPdo, (uint16_t)(o.arg(1) & 1)); else rc = (int)CODictWrByte(&n->Dict, CO_DEV(0x2100, 4), (uint8_t)o.arg(1)); }
         else if (k == "csdoreq") { CO_CSDO *cs = COCSdoFind(n, 0); if (!cs) return -99; uint32_t size = (uint32_t)o.arg(1) % 20 + 1; uint8_t *nb = (uint8_t *)malloc(size); memset(nb, 0x3C, size);
             rc = (int)(o.arg(0) ? COCSdoRequestUpload(cs, CO_DEV(0x2000, 1), nb, size, doneCb, (uint32_t)o.arg(2) % 50 + 5) : COCSdoRequestDownload(cs, CO_DEV(0x2000, 1), nb, size, doneCb, (uint32_t)o.arg(2) % 50 + 5));
@@ -200,7 +201,7 @@ static void gen_traffic(Rng &r, std::vector<Op> &ops, bool probe, bool para = fa
     else if (c < 32) { std::vector<uint8_t> b; for (int j = 0; j < 8; j++) b.push_back(r.byte()); ops.push_back(Op("frame", {r.pick<int64_t>({0x201, 0x301, 0x301, 0x401}), 8}, b)); }
     else if (c == 32) ops.push_back(Op("frame", {0x7E5, 8}, {r.pick<uint8_t>({4, 4, 17, 19, 23, 94, 64}), (uint8_t)r.pick<int>({1, 1, 0, 3, 100}), (uint8_t)r.below(9), 0, 0, 0, 0, 0}));
     else if (c == 33) ops.push_back(Op("frame", {r.pick<int64_t>({0x123, 0x7FF, 0x589}), 8}, {1, 2, 3}));
-    else if (c == 34) ops.push_back(Op("emcy", {(int64_t)r.below(2), (int64_t)r.below(3)}));
+    else if (c == 34) ops.push_back(Op("emcy", {(int64_t)r.chance(2, 3), r.chance(1, 2) ? (int64_t)r.below(3) : r.pick<int64_t>({7, 8, 9, 15, 16, 17, 23, 24, 25, 26, 5})}));
     else if (c == 35) ops.push_back(Op("trig", {(int64_t)r.below(2), (int64_t)r.below(256)}));
     else if (c == 36) ops.push_back(Op("csdoreq", {(int64_t)r.below(2), (int64_t)r.below(20), (int64_t)r.below(50)}));
     else if (c == 37) { if (!probe) ops.push_back(Op("apptmr", {(int64_t)r.chance(2, 3), (int64_t)r.below(30), (int64_t)r.below(30)})); else ops.push_back(Op("read")); }
